@@ -91,6 +91,18 @@ class FsEnv:
         shutil.rmtree(self.root, ignore_errors=True)
 
 
+def in_mode(mode, fn):
+    """Run fn() the way the process variant asks for (C08: 'regardless of the process it runs in')."""
+    if mode == 'thread':
+        import threading
+        box = []
+        t = threading.Thread(target=lambda: box.append(fn()))
+        t.start()
+        t.join(25)
+        return box[0] if box else ('err', TimeoutError('build in a secondary thread did not finish'))
+    return fn()
+
+
 def main():
     sys.path.insert(0, os.path.dirname(os.path.dirname(os.path.abspath(__file__))))
     import dznpy
@@ -124,7 +136,8 @@ def main():
                 builder = shared  # one Builder instance for the whole batch
             env = FsEnv(spec['filename']) if case.get('fs_env') else None
             try:
-                kind, res = cfgspec.outcome(spec, model=case['model'], builder=builder)
+                kind, res = in_mode(case.get('mode'), lambda: cfgspec.outcome(
+                    spec, model=case['model'], builder=builder))  # pylint: disable=cell-var-from-loop
             finally:
                 if env:
                     env.close()
